@@ -38,13 +38,15 @@ type c11conn struct {
 	badPing  string
 	hsErr    error
 	frErr    error
-	sentSeq  int // frames sent s2c (0 = handshake confirmation)
+	sentSeq  int           // frames sent s2c (0 = handshake confirmation)
+	sessAt   time.Duration // instant at which the server completed the handshake of this session
 }
 
 type c11server struct {
 	w      *core.World
 	key    adnl.ServerKey
-	conns  []*core.Conn // first connection accepted per host (= per logical client)
+	conns  []*core.Conn   // first connection accepted per host (= per logical client)
+	all    [][]*core.Conn // every connection accepted per host, in accept order (reconnects)
 	pong   bool
 	faults []*core.StreamFault // per logical client
 	onSess func(ci int)        // called when the first connection of a logical client completed the handshake
@@ -56,6 +58,7 @@ func (s *c11server) OnAccept(c *core.Conn) {
 	c.ServerData = &c11conn{}
 	c.RecordWire = true
 	ci := c.Host.Index
+	s.all[ci] = append(s.all[ci], c)
 	if s.conns[ci] == nil {
 		s.conns[ci] = c
 		if f := s.faults[ci]; f != nil {
@@ -84,6 +87,7 @@ func (s *c11server) OnBytes(c *core.Conn, b []byte) {
 			return
 		}
 		st.sess = sess
+		st.sessAt = s.w.Now()
 		st.fr = &adnl.Framer{S: sess}
 		b = st.hsBuf[256:]
 		st.hsBuf = nil
@@ -120,6 +124,17 @@ func (s *c11server) OnBytes(c *core.Conn, b []byte) {
 		s.w.Logf("server: framing error conn=%s: %v", c.Name, err)
 		c.ServerClose(0)
 	}
+}
+
+// latest returns the newest session of a logical client that completed the handshake and is still up.
+func (s *c11server) latest(ci int) *core.Conn {
+	for i := len(s.all[ci]) - 1; i >= 0; i-- {
+		c := s.all[ci][i]
+		if s.st(c).sess != nil && c.Alive() {
+			return c
+		}
+	}
+	return nil
 }
 
 func (s *c11server) nonce(c *core.Conn, k int) (n [32]byte) {
@@ -168,6 +183,11 @@ func genC11(seed uint64, index int, tier string) *run.Plan {
 	p.P["pong"] = g.Intn(2)
 	spanMs := []int{5, 500, 4000, 6000}[g.Intn(4)]
 	p.P["span_ms"] = spanMs
+	// the context handed to NewConnection governs connecting only: a deadline that passes, or a cancellation,
+	// after the connection is up must not touch the packets that follow (dialing is instant in this simulation,
+	// the handshake takes up to a round trip)
+	p.P["ctx_ms"] = []int{0, 0, 0, 1500, 2500, 3500}[g.Intn(6)]
+	p.P["ctx_cancel"] = g.Intn(4) / 3
 	maxOps := 12
 	if tier == "thorough" {
 		maxOps = 40
@@ -202,6 +222,10 @@ func genC11(seed uint64, index int, tier string) *run.Plan {
 			f.Arg = 1 + g.Intn(40)
 		}
 		p.Faults = append(p.Faults, run.Fault{Kind: "stream", Conn: g.Intn(p.P["conns"]), Stream: f})
+	} else if spanMs >= 4000 && g.Intn(2) == 0 {
+		// no corruption: the server drops the connection (reset, or an orderly close) while packets flow; the client
+		// reconnects by itself and every later packet has to arrive intact over the new session
+		p.Faults = append(p.Faults, run.Fault{Kind: "reset", Conn: g.Intn(p.P["conns"]), AtMs: g.Intn(spanMs/2 + 1), A: g.Intn(3), B: g.Intn(3)})
 	}
 	return p
 }
@@ -229,8 +253,9 @@ type c11client struct {
 	got      [][]byte
 	gotSum   [][32]byte
 	sendErrs []string
-	sentOK   [][]byte // payloads whose Send returned nil, in call order
-	tried    [][]byte // every payload handed to Send
+	sentOK   [][]byte        // payloads whose Send returned nil, in call order
+	sentAt   []time.Duration // instant at which each of those calls started
+	tried    [][]byte        // every payload handed to Send
 }
 
 func execC11(t *testing.T, w *core.World, p *run.Plan, r *run.Result) {
@@ -238,6 +263,7 @@ func execC11(t *testing.T, w *core.World, p *run.Plan, r *run.Result) {
 	nconns := p.Get("conns", 1)
 	srv.conns = make([]*core.Conn, nconns)
 	srv.faults = make([]*core.StreamFault, nconns)
+	srv.all = make([][]*core.Conn, nconns)
 	for ci := 0; ci < nconns; ci++ {
 		h := w.Net.AddHost(fmt.Sprintf("sim:%d", ci), srv)
 		h.Latency[core.C2S] = core.LatencyModel{BaseUs: p.Get("lat_c2s_us", 0), JitterUs: p.Get("jit_us", 0)}
@@ -256,8 +282,35 @@ func execC11(t *testing.T, w *core.World, p *run.Plan, r *run.Result) {
 		return nil
 	}
 
+	resetFor := func(ci int) *run.Fault {
+		for i := range p.Faults {
+			if p.Faults[i].Kind == "reset" && p.Faults[i].Conn == ci {
+				return &p.Faults[i]
+			}
+		}
+		return nil
+	}
+	resetFired := make([]bool, nconns)
 	for ci := 0; ci < nconns; ci++ {
 		srv.faults[ci] = faultFor(ci)
+		if rf := resetFor(ci); rf != nil {
+			ci, rf := ci, rf
+			w.At(time.Duration(rf.AtMs)*time.Millisecond+time.Duration(ci)*time.Microsecond+500*time.Nanosecond, fmt.Sprintf("server drops client %d", ci), func() {
+				c := srv.latest(ci)
+				if c == nil {
+					if len(srv.all[ci]) == 0 {
+						return
+					}
+					c = srv.all[ci][len(srv.all[ci])-1]
+				}
+				resetFired[ci] = true
+				if rf.A == 0 {
+					c.ServerClose(rf.B)
+				} else {
+					c.Reset()
+				}
+			})
+		}
 	}
 	// Client side: connect, then reader + sender goroutines.
 	for ci := 0; ci < nconns; ci++ {
@@ -279,7 +332,18 @@ func execC11(t *testing.T, w *core.World, p *run.Plan, r *run.Result) {
 		w.At(time.Duration(ci)*time.Microsecond, fmt.Sprintf("connect %d", ci), func() {
 			go func() {
 				w.Tag(fmt.Sprintf("client-%d", ci))
-				conn, err := liteclient.NewConnection(context.Background(), srv.key.Pub, fmt.Sprintf("sim:%d", ci))
+				ctx := context.Background()
+				cancel := func() {}
+				if ms := p.Get("ctx_ms", 0); ms > 0 {
+					ctx, cancel = context.WithTimeout(ctx, time.Duration(ms)*time.Millisecond)
+				} else if p.Get("ctx_cancel", 0) == 1 {
+					ctx, cancel = context.WithCancel(ctx)
+				}
+				conn, err := liteclient.NewConnection(ctx, srv.key.Pub, fmt.Sprintf("sim:%d", ci))
+				if p.Get("ctx_cancel", 0) == 1 {
+					cancel() // the usual `defer cancel()` of the function that connected
+				}
+				_ = cancel
 				cl.mu.Lock()
 				cl.conn, cl.connErr, cl.returned = conn, err, true
 				cl.mu.Unlock()
@@ -319,6 +383,7 @@ func execC11(t *testing.T, w *core.World, p *run.Plan, r *run.Result) {
 								time.Sleep(d)
 							}
 							payload := c11payload(p.Seed, ci*1000+k, op.A)
+							startedAt := w.Now()
 							pk, err := liteclient.NewPacket(append([]byte{}, payload...))
 							if err == nil {
 								err = conn.Send(pk)
@@ -329,6 +394,7 @@ func execC11(t *testing.T, w *core.World, p *run.Plan, r *run.Result) {
 								cl.sendErrs = append(cl.sendErrs, err.Error())
 							} else {
 								cl.sentOK = append(cl.sentOK, payload)
+								cl.sentAt = append(cl.sentAt, startedAt)
 							}
 							cl.mu.Unlock()
 						}
@@ -358,6 +424,9 @@ func execC11(t *testing.T, w *core.World, p *run.Plan, r *run.Result) {
 			k++
 			w.At(time.Duration(op.AtMs)*time.Millisecond+time.Duration(kk+1)*time.Microsecond, fmt.Sprintf("%s c=%d k=%d", op.Kind, ci, kk), func() {
 				c := srv.conns[ci]
+				if resetFor(ci) != nil {
+					c = srv.latest(ci)
+				}
 				if c == nil {
 					return
 				}
@@ -391,6 +460,11 @@ func execC11(t *testing.T, w *core.World, p *run.Plan, r *run.Result) {
 
 	span := time.Duration(p.Get("span_ms", 1000)) * time.Millisecond
 	horizon := span + 3400*time.Millisecond
+	for ci := 0; ci < nconns; ci++ {
+		if resetFor(ci) != nil {
+			horizon = span + 7500*time.Millisecond // a dropped idle connection is noticed by the next ping (3 s)
+		}
+	}
 	w.Run(nil, 200000, horizon)
 
 	// ---- oracles ----
@@ -402,6 +476,12 @@ func execC11(t *testing.T, w *core.World, p *run.Plan, r *run.Result) {
 				w.Violate("C11.c-s2c", "C11.c|payload-changed-after-delivery", fmt.Sprintf("client %d: the %d-byte payload of delivered packet %d changed after it was handed to the application", ci, len(cl.got[i]), i))
 				break
 			}
+		}
+		if rf := resetFor(ci); rf != nil && resetFired[ci] {
+			c11judgeReconnect(w, p, srv, ci, cl)
+			cl.mu.Unlock()
+			r.Nontrivial = true
+			continue
 		}
 		f := faultFor(ci)
 		var c *core.Conn
@@ -533,6 +613,106 @@ func execC11(t *testing.T, w *core.World, p *run.Plan, r *run.Result) {
 	hs := fnv.New64a()
 	fmt.Fprintf(hs, "%v|%v|%d", p.Faults, w.Net.Fired, len(p.Ops))
 	w.Visit(hs.Sum64())
+}
+
+// c11judgeReconnect: the server dropped the connection of logical client ci (no byte was altered). Packets around the
+// drop may be lost; nothing may be invented, reordered, duplicated or garbled, and once the client has a new session
+// every packet it accepts has to arrive, in both directions.
+func c11judgeReconnect(w *core.World, p *run.Plan, srv *c11server, ci int, cl *c11client) {
+	sessions := srv.all[ci]
+	if len(sessions) > 1 {
+		w.Probe("reconnected-session")
+	}
+	var final *core.Conn
+	var recv [][]byte
+	for k, c := range sessions {
+		st := srv.st(c)
+		if st.frErr != nil || st.hsErr != nil {
+			w.Violate("C11.b-c2s", "C11.b|reconnect|server-rejects", fmt.Sprintf("client %d, session %d of %d: the spec server rejected the client's stream although no byte was altered in transit: %s", ci, k+1, len(sessions), stErr(st)))
+			return
+		}
+		if st.badPing != "" {
+			w.Violate("C11.b-ping", "C11.b|reconnect|ping", st.badPing)
+		}
+		recv = append(recv, st.received...)
+		if st.sess != nil {
+			final = c
+		}
+	}
+	if !cl.returned || cl.connErr != nil || final == nil {
+		w.Probe("dropped-before-first-handshake")
+		return
+	}
+	// c2s: what the server extracted is, in order, a selection of what was handed to Send (any order with concurrent senders)
+	if p.Free {
+		pool := map[string]int{}
+		for _, b := range cl.tried {
+			pool[string(b)]++
+		}
+		for _, b := range recv {
+			if pool[string(b)] == 0 {
+				w.Violate("C11.b-c2s", "C11.b|reconnect|payload", fmt.Sprintf("client %d: the server extracted a %d-byte payload that was never sent (or twice)", ci, len(b)))
+				return
+			}
+			pool[string(b)]--
+		}
+	} else {
+		i := 0
+		for _, b := range recv {
+			for i < len(cl.tried) && !bytes.Equal(cl.tried[i], b) {
+				i++
+			}
+			if i == len(cl.tried) {
+				w.Violate("C11.b-c2s", "C11.b|reconnect|payload", fmt.Sprintf("client %d: the server extracted a %d-byte payload (%x..) that was not sent, or out of order, or twice", ci, len(b), head(b)))
+				return
+			}
+			i++
+		}
+	}
+	fst := srv.st(final)
+	if final.Alive() && final != sessions[0] {
+		got := map[string]int{}
+		for _, b := range fst.received {
+			got[string(b)]++
+		}
+		for i, b := range cl.sentOK {
+			if cl.sentAt[i] <= fst.sessAt {
+				continue
+			}
+			if got[string(b)] == 0 {
+				w.Violate("C11.b-c2s", "C11.b|reconnect|lost", fmt.Sprintf("client %d: Send of a %d-byte payload returned nil at %v, after the new session was established at %v, and the packet never arrived", ci, len(b), cl.sentAt[i], fst.sessAt))
+				return
+			}
+			got[string(b)]--
+		}
+		w.Probe("reconnect-completeness-judged")
+	}
+	// s2c: per session the reference receiver on the delivered bytes; earlier sessions may be cut short
+	got := nonPong(cl.got)
+	idx := 0
+	for k, c := range sessions {
+		st := srv.st(c)
+		if st.sess == nil {
+			continue
+		}
+		ref, _ := st.sess.ReferenceReceiver().Feed(c.Wire[core.S2C])
+		var frames [][]byte
+		if len(ref) > 0 {
+			frames = nonPong(ref[1:])
+		}
+		n := 0
+		for n < len(frames) && idx+n < len(got) && bytes.Equal(frames[n], got[idx+n]) {
+			n++
+		}
+		if c == final && final.Alive() && n < len(frames) {
+			w.Violate("C11.c-s2c", "C11.c|reconnect|payload", fmt.Sprintf("server -> client %d over session %d (established after the drop, still up): %d packets arrived intact, the application received %d of them", ci, k+1, len(frames), n))
+			return
+		}
+		idx += n
+	}
+	if idx < len(got) {
+		w.Violate("C11.c-s2c", "C11.c|reconnect|invented", fmt.Sprintf("server -> client %d: the application received %d packets, only %d of them match what arrived on the wire in order", ci, len(got), idx))
+	}
 }
 
 func sortedCopy(in [][]byte) [][]byte {
